@@ -104,35 +104,57 @@ def markWarming (s : State) : List Ty → State
 def newWatched (s : State) (t : Ty) (names : List String) : State :=
   markWarming (s.set t (some { names := names })) t.warming
 
-/-- `xds.ShouldRespond` on the pinned tree, including the nil dereference of the NACK path:
+/-- The repairs made to `xds.ShouldRespond` in /repo (`fix:` commits); `false` selects the code before the repair.
+    * `nilGuard` (finding F1, d45c5e2): a NACK for an unwatched type no longer dereferences the nil watch;
+    * `unsentNew` (finding F-C04-3, 6064924): a request for a watch nothing was sent on yet (`NonceSent == ""`:
+      the previous request was answered with nothing to send) is a new request, not a stale one, whatever nonce
+      it echoes;
+    * `nackFirst` (a581d69, found by the C05 review): a request with `error_detail` for a type that is NOT watched on
+      this stream (a NACK Envoy had queued when the previous stream broke) is the first request of the type: it is
+      handled as if it carried no `error_detail`. -/
+structure Repairs where
+  nilGuard  : Bool := true
+  unsentNew : Bool := true
+  nackFirst : Bool := true
+  deriving DecidableEq, Repr
+
+/-- `xds.ShouldRespond` below the `error_detail` block (it does not read `error_detail`). -/
+def respondTail (f : Repairs) (s : State) (r : Req) : Res :=
+  if r.unsub then .out false [] (s.set r.ty none)
+  else
+    match s r.ty with
+    | none => .out true [] (newWatched s r.ty r.names)
+    | some prev =>
+      if r.nonce = "" then .out true [] (newWatched s r.ty r.names)
+      else if f.unsentNew = true ∧ prev.nonceSent = "" then .out true [] (newWatched s r.ty r.names)
+      else if r.nonce ≠ prev.nonceSent then .out false [] s
+      else
+        let s' := s.set r.ty (some { prev with lastError := "", nonceAcked := r.nonce,
+                                               names := r.names, always := false })
+        let removed := diff prev.names r.names
+        let added := diff r.names prev.names
+        if prev.always then .out true [] s'
+        else if removed.isEmpty && added.isEmpty then .out false [] s'
+        else if !r.ty.wildcard && added.isEmpty then .out false [] s'
+        else .out true added s'
+
+/-- `xds.ShouldRespond`, including the nil dereference of the NACK path of the pinned tree:
     `UpdateWatchedResource` hands the callback a nil `*WatchedResource` when the type has no watch,
-    and the callback writes `wr.LastError` unconditionally unless `nilGuard` (the repaired code). -/
-def shouldRespondG (nilGuard : Bool) (s : State) (r : Req) : Res :=
+    and the callback wrote `wr.LastError` unconditionally before the repair `nilGuard`. -/
+def shouldRespondR (f : Repairs) (s : State) (r : Req) : Res :=
   match r.err with
   | some msg =>
     match s r.ty with
-    | none => if nilGuard then .out false [] s else .crash
+    | none => if f.nackFirst then respondTail f s r else if f.nilGuard then .out false [] s else .crash
     | some w => .out false [] (s.set r.ty (some { w with lastError := msg }))
-  | none =>
-    if r.unsub then .out false [] (s.set r.ty none)
-    else
-      match s r.ty with
-      | none => .out true [] (newWatched s r.ty r.names)
-      | some prev =>
-        if r.nonce = "" then .out true [] (newWatched s r.ty r.names)
-        else if r.nonce ≠ prev.nonceSent then .out false [] s
-        else
-          let s' := s.set r.ty (some { prev with lastError := "", nonceAcked := r.nonce,
-                                                 names := r.names, always := false })
-          let removed := diff prev.names r.names
-          let added := diff r.names prev.names
-          if prev.always then .out true [] s'
-          else if removed.isEmpty && added.isEmpty then .out false [] s'
-          else if !r.ty.wildcard && added.isEmpty then .out false [] s'
-          else .out true added s'
+  | none => respondTail f s r
 
-/-- The code as it is in /repo now (after the `fix:` commit for finding F1 the nil guard is present). -/
-def shouldRespond : State → Req → Res := shouldRespondG true
+/-- The code before the repairs `unsentNew` and `nackFirst`, with or without the nil guard. -/
+def shouldRespondG (nilGuard : Bool) : State → Req → Res :=
+  shouldRespondR { nilGuard := nilGuard, unsentNew := false, nackFirst := false }
+
+/-- The code as it is in /repo now. -/
+def shouldRespond : State → Req → Res := shouldRespondR {}
 
 /-- The watch update performed by `xds.Send` after a successful `stream.Send` of a response with a
     non-empty nonce (debug types are outside the model). -/
@@ -217,13 +239,15 @@ def deltaFirst (s : State) (r : DReq) : DRes :=
 
 /-- `shouldRespondDelta`.  `keepSub = false` is the code before the repair "a subscription change
     attached to a NACK or to a stale ACK is not dropped with it": there a NACK and a stale ACK returned
-    before looking at the subscription change. -/
-def shouldRespondDeltaG (nilGuard : Bool) (keepSub : Bool) (s : State) (r : DReq) : DRes :=
+    before looking at the subscription change.  `nackFirst = false` is the code before the repair "a request with
+    `error_detail` for a type that is not watched on this stream is the first request of the type" (a581d69). -/
+def shouldRespondDeltaG (nilGuard : Bool) (keepSub : Bool) (nackFirst : Bool) (s : State) (r : DReq) : DRes :=
   match r.err with
   | some msg =>
     match s r.ty with
     | none =>
-      if keepSub && r.carries then deltaFirst s r
+      if nackFirst then deltaFirst s r
+      else if keepSub && r.carries then deltaFirst s r
       else if nilGuard then .out false s else .crash
     | some w =>
       let s1 := s.set r.ty (some { w with lastError := msg })
@@ -237,7 +261,7 @@ def shouldRespondDeltaG (nilGuard : Bool) (keepSub : Bool) (s : State) (r : DReq
         (if keepSub && r.carries then deltaTail true s prev r else .out false s)
       else deltaTail false s prev r
 
-def shouldRespondDelta : State → DReq → DRes := shouldRespondDeltaG true true
+def shouldRespondDelta : State → DReq → DRes := shouldRespondDeltaG true true true
 
 /-- The watch update of `sendDelta` after a successful send: optional new resource names (wildcard
     types whose generator is not delta-aware) and the nonce. -/
